@@ -120,6 +120,9 @@ pub fn run(cfg: &RunCfg) -> Ctx {
         let opts = rng.below(16) as u32;
         scenario(rng, ctx, lazy, o, p, opts);
     }));
+    if !crate::ctx::small() {
+        all.merge(par_cases(cfg, "sockets", cfg.n(30, 16 * 60), || (), |_, _rng, ctx, i| sockets_case(ctx, i)));
+    }
     all.floor("opt.connect_timeout", 10);
     all.floor("model.call_ok_on_live_connection", 10);
     all.floor("model.call_reconnected", 10);
@@ -436,4 +439,181 @@ fn scenario(rng: &mut Rng, ctx: &mut Ctx, lazy: bool, outcomes: Vec<bool>, ops: 
     let nontrivial = states.iter().any(|s| s == "kill" || s == "unavailable" || s == "eager-initial-failure");
     ctx.fingerprint(fp, nontrivial);
     ctx.sample(case_json);
+}
+
+// ------------------------------------------------------------------ real sockets (the entry points that take no connector)
+
+/// `unix:` endpoints through the ordinary `connect_lazy()` / `connect()`, and `Channel::balance_list`
+/// over loopback TCP: fail while nothing listens, succeed once the server is there, again after a
+/// restart.  Real time (no paused clock: the kernel is in the loop); a call that takes longer than
+/// 20 s wall clock where the unchanged code answers in milliseconds is reported as a hang.
+fn sockets_case(ctx: &mut Ctx, i: u64) {
+    use std::sync::atomic::Ordering::SeqCst;
+    let kind = ["uds-lazy", "uds-eager", "balance-list"][(i % 3) as usize];
+    ctx.begin(kind, json!({"kind": kind}));
+    let rt = match tokio::runtime::Builder::new_current_thread().enable_all().build() {
+        Ok(rt) => rt,
+        Err(_) => {
+            ctx.count("sockets.unavailable");
+            return;
+        }
+    };
+    let dir = format!("{}/c14-sock-{}-{}", std::env::var("VERIF_SCRATCH").unwrap_or_else(|_| "/verif/target".into()), std::process::id(), i);
+    let _ = std::fs::create_dir_all(&dir);
+    let path = format!("{}/s.sock", dir);
+    let handler = Handler::new();
+    let res: Result<Vec<String>, (String, String)> = rt.block_on(async {
+        let mut steps: Vec<String> = Vec::new();
+        let limit = Duration::from_secs(20);
+        // a server that can be started and stopped
+        enum Srv {
+            Uds(String),
+            Tcp(u16),
+        }
+        type Running = (tokio::task::JoinHandle<()>, tokio::sync::oneshot::Sender<()>);
+        let start = |h: Handler, s: &Srv| -> Result<Running, String> {
+            match s {
+                Srv::Uds(p) => {
+                    let _ = std::fs::remove_file(p);
+                    let l = tokio::net::UnixListener::bind(p).map_err(|e| format!("bind {}: {}", p, e))?;
+                    let incoming = futures_util::stream::unfold(l, |l| async move {
+                        let r = l.accept().await.map(|(s, _)| s);
+                        Some((r, l))
+                    });
+                    let (tx, rx) = tokio::sync::oneshot::channel::<()>();
+                    Ok((
+                        tokio::spawn(async move {
+                            let _ = Server::builder().add_service(VerifServer::new(h)).serve_with_incoming_shutdown(incoming, async move { let _ = rx.await; }).await;
+                        }),
+                        tx,
+                    ))
+                }
+                Srv::Tcp(port) => {
+                    let l = std::net::TcpListener::bind(("127.0.0.1", *port)).map_err(|e| format!("bind 127.0.0.1:{}: {}", port, e))?;
+                    l.set_nonblocking(true).map_err(|e| e.to_string())?;
+                    let l = tokio::net::TcpListener::from_std(l).map_err(|e| e.to_string())?;
+                    let incoming = futures_util::stream::unfold(l, |l| async move {
+                        let r = l.accept().await.map(|(s, _)| s);
+                        Some((r, l))
+                    });
+                    let (tx, rx) = tokio::sync::oneshot::channel::<()>();
+                    Ok((
+                        tokio::spawn(async move {
+                            let _ = Server::builder().add_service(VerifServer::new(h)).serve_with_incoming_shutdown(incoming, async move { let _ = rx.await; }).await;
+                        }),
+                        tx,
+                    ))
+                }
+            }
+        };
+        let srv = if kind == "balance-list" {
+            // a port nobody listens on: bind, note, release
+            let p = std::net::TcpListener::bind("127.0.0.1:0").and_then(|l| l.local_addr()).map_err(|e| ("sockets-unavailable".to_string(), e.to_string()))?.port();
+            Srv::Tcp(p)
+        } else {
+            Srv::Uds(path.clone())
+        };
+        let mut running: Option<Running> = None;
+        // eager UDS channels need the server first
+        if kind == "uds-eager" {
+            running = Some(start(handler.clone(), &srv).map_err(|e| ("sockets-unavailable".to_string(), e))?);
+        }
+        let channel = match &srv {
+            Srv::Uds(p) => {
+                let ep = Endpoint::from_shared(format!("unix://{}", p)).map_err(|e| ("harness".to_string(), e.to_string()))?;
+                if kind == "uds-eager" {
+                    match tokio::time::timeout(limit, ep.connect()).await {
+                        Err(_) => return Err(("hang".into(), "eager connect to a listening unix socket did not resolve within 20 s".into())),
+                        Ok(Err(e)) => return Err(("eager-connect-failed".into(), format!("eager connect to a listening unix socket failed: {}", e))),
+                        Ok(Ok(ch)) => ch,
+                    }
+                } else {
+                    ep.connect_lazy()
+                }
+            }
+            Srv::Tcp(port) => {
+                let ep = Endpoint::from_shared(format!("http://127.0.0.1:{}", port)).map_err(|e| ("harness".to_string(), e.to_string()))?;
+                tonic::transport::Channel::balance_list(vec![ep].into_iter())
+            }
+        };
+        let mut client = VerifClient::new(channel);
+        let mut n = 0u64;
+        // plan: (server up?) per call
+        let plan: &[bool] = if kind == "uds-eager" { &[true, false, true, true] } else { &[false, false, true, true, false, true] };
+        for up in plan {
+            match (*up, running.is_some()) {
+                (true, false) => {
+                    running = Some(start(handler.clone(), &srv).map_err(|e| ("sockets-unavailable".to_string(), e))?);
+                    tokio::time::sleep(Duration::from_millis(20)).await;
+                }
+                (false, true) => {
+                    // a real shutdown: the listener goes away and the open connections are closed
+                    let (task, stop) = running.take().unwrap();
+                    let _ = stop.send(());
+                    if tokio::time::timeout(Duration::from_secs(10), task).await.is_err() {
+                        return Err(("sockets-unavailable".into(), "the server did not shut down within 10 s".into()));
+                    }
+                    if let Srv::Uds(p) = &srv {
+                        let _ = std::fs::remove_file(p);
+                    }
+                    tokio::time::sleep(Duration::from_millis(50)).await;
+                }
+                _ => {}
+            }
+            n += 1;
+            let before = handler.total_entered.load(SeqCst);
+            // the first call after the peer went away may still find the old connection and fail
+            // in any way; what is judged is the state the channel settles in
+            let mut last = None;
+            for attempt in 0..3 {
+                let r = tokio::time::timeout(limit, client.unary(tonic::Request::new(Msg { data: vec![7], seq: n, tag: String::new() }))).await;
+                match r {
+                    Err(_) => return Err(("hang".into(), format!("call {} ({}; server {}) did not resolve within 20 s", n, kind, if *up { "up" } else { "down" }))),
+                    Ok(r) => {
+                        let ok = r.is_ok();
+                        last = Some(r.map(|_| ()).map_err(|s| (s.code(), s.message().to_string())));
+                        if ok == *up {
+                            break;
+                        }
+                    }
+                }
+                let _ = attempt;
+                tokio::time::sleep(Duration::from_millis(30)).await;
+            }
+            match (up, last.unwrap()) {
+                (true, Ok(())) => {
+                    if handler.total_entered.load(SeqCst) == before {
+                        return Err(("ok-without-handler".into(), format!("call {} returned Ok but no handler ran", n)));
+                    }
+                    steps.push("ok".into());
+                }
+                (true, Err((c, m))) => return Err(("reachable-but-failed".into(), format!("call {} ({}): the server is listening again but three calls in a row failed, last with {:?}: {}", n, kind, c, m))),
+                (false, Ok(())) => return Err(("ok-without-connection".into(), format!("call {} succeeded although nothing listens", n))),
+                (false, Err((c, m))) => {
+                    if c != tonic::Code::Unavailable {
+                        return Err(("wrong-code".into(), format!("call {} ({}) failed with {:?} ({}) while nothing listens; want UNAVAILABLE", n, kind, c, m)));
+                    }
+                    steps.push("unavailable".into());
+                }
+            }
+        }
+        if let Some((t, _stop)) = running.take() {
+            t.abort();
+        }
+        Ok(steps)
+    });
+    drop(rt);
+    let _ = std::fs::remove_dir_all(&dir);
+    match res {
+        Err((d, w)) if d == "sockets-unavailable" => {
+            let _ = w;
+            ctx.count("sockets.unavailable");
+        }
+        Err((d, w)) => ctx.violation_class(&d, kind, w),
+        Ok(steps) => {
+            ctx.count(&format!("sockets.{}", kind));
+            ctx.distinct("socket_histories", &format!("{}:{}", kind, steps.join(">")));
+        }
+    }
+    ctx.fingerprint(format!("sockets|{}", kind), true);
 }
